@@ -898,7 +898,8 @@ pub fn routes_behaviour(r: &mut Rng, t: &mut Trace) {
     }
     let assets = vec![nat("ua"), nat("ub"), tok(&w.tokens[0]), tok(&w.tokens[1])];
     for start in assets.iter() {
-        for hops in 1..=3usize {
+        for hops in 1..=4usize {
+            // 4 hops through the four pairs is a round trip back to the start asset
             let chains = chains_from(&w, start, hops);
             if chains.is_empty() { continue; }
             let route = r.pick(&chains).clone();
